@@ -511,3 +511,55 @@ def rule_read_no_rewrite(ctx):
         else:
             ctx.ok("HDR.READ-NO-REWRITE", site, fi, fi.node, "no parsed item field is rewritten", nontrivial=fi.name == "read")
     ctx.floor("HDR.READ-NO-REWRITE", 1)
+
+
+NUMLIT_PROBES = ["1", "-1", "+1", "0042", "1.5", ".5", "-.5", "+.5", "5.", "1e5", "1E-5", ".5e3", "2.5e+03", "12345678901234567890"]
+
+
+def rule_numlit_complete(ctx):
+    """HDR.NUMLIT (completeness): every plain decimal literal reaches the number conversion: no earlier `return` of
+    SectionParser.num is taken for a probe literal (a "fast path" that looks at the first character only rejects `.5`), and
+    the integer conversion is a bounded 64-bit one (np.int64) so that a literal too long for it falls through to float"""
+    p = ctx.p
+    fi = p.func(SP + ".num")
+    x = fi.params()[1]
+    env0 = module_env(p, fi.module.name)
+    body = [s_ for s_ in fi.node.body if not (isinstance(s_, ast.Expr) and isinstance(s_.value, ast.Constant))]
+    site = fi.qual + "#complete"
+    early = []
+    for st in body:
+        if isinstance(st, ast.Try) and any(isinstance(c, ast.Call) and _ctor_name(c) in (INT_CTORS | FLOAT_CTORS) for c in ast.walk(st)):
+            break
+        if isinstance(st, ast.If) and any(isinstance(r_, ast.Return) for r_ in st.body) and not st.orelse:
+            early.append(st)
+    problems = []
+    undec = []
+    for st in early:
+        for probe in NUMLIT_PROBES:
+            def env(name, probe=probe):
+                if name == x:
+                    return probe
+                return env0(name)
+            try:
+                taken = bool(fold(st.test, env))
+            except NotConst as e:
+                undec.append("%s (%s)" % (unparse(st.test)[:50], e))
+                break
+            if taken:
+                problems.append("the decimal literal %r leaves num() through `if %s: return ...` before any conversion: it stays a "
+                                "string although it is a numeric literal" % (probe, unparse(st.test)[:70]))
+                break
+    # bounded integer conversion
+    for c in walk_shallow(fi.node):
+        if isinstance(c, ast.Call) and isinstance(c.func, ast.Name) and c.func.id == "int" and c.args \
+                and any(isinstance(n_, ast.Name) and n_.id == x for n_ in ast.walk(c.args[0])):
+            par = getattr(c, "_parent", None)
+            if isinstance(par, ast.Return) or isinstance(par, ast.Assign):
+                problems.append("integers are converted with the unbounded `%s`: a literal beyond 64 bits no longer falls through to "
+                                "the float conversion and comes back as an arbitrary-precision int" % unparse(c))
+    if undec and not problems:
+        ctx.undecided("HDR.NUMLIT", site, fi, fi.node, "an early-return test of num() is not foldable: %s" % undec[0])
+    else:
+        ctx.check(not problems, "HDR.NUMLIT", site, fi, fi.node, "no early return diverts a decimal literal (%d probes x %d early "
+                  "returns); integers go through a bounded 64-bit conversion" % (len(NUMLIT_PROBES), len(early)),
+                  "; ".join(dict.fromkeys(problems)))
